@@ -15,7 +15,7 @@ Keys == {"g", "g2"}
 NoCfg == [prio |-> 0, tk |-> FALSE, hn |-> -1, conn |-> FALSE, grace |-> 5000000, vi |-> 5000000,
           group |-> "g", h |-> 1000000, ttl |-> 3000000, cb |-> TRUE, ddur |-> 0]
 NoStop == [open |-> FALSE, variant |-> "stop", del |-> FALSE, wait |-> FALSE, bound |-> 0, at |-> 0,
-           owner |-> FALSE, late |-> FALSE, hadClaim |-> FALSE]
+           owner |-> FALSE, late |-> FALSE, hadClaim |-> FALSE, checked |-> FALSE]
 
 I0 == [present |-> FALSE, cfg |-> NoCfg,
        started |-> FALSE, stopped |-> FALSE, stopping |-> 0, part |-> FALSE, ready |-> FALSE,
@@ -30,13 +30,13 @@ I0 == [present |-> FALSE, cfg |-> NoCfg,
        vc |-> {}, st |-> NoStop, halted |-> FALSE,
        burst |-> 0, burstT |-> -1,
        preSince |-> -1,
-       inflight |-> {}, lastEv |-> "", note |-> "", why |-> "", readyAt |-> -1, owes |-> FALSE, cut |-> FALSE, hung |-> {}, verifyAt |-> -1, nbo |-> 0, nrs |-> 0, servedSince |-> 0]
+       inflight |-> {}, lastEv |-> "", note |-> "", why |-> "", readyAt |-> -1, owes |-> FALSE, cut |-> FALSE, hung |-> {}, verifyAt |-> -1, nbo |-> 0, nrs |-> 0, servedSince |-> 0, hadLid |-> FALSE, reconnAt |-> -1]
 
 O0 == [scn |-> "", ended |-> TRUE, H |-> 1000000, TTL |-> 3000000, L |-> 0, PT |-> 5000000,
        rec |-> [k \in Keys |-> NoRec], tokens |-> {}, pend |-> {},
        I |-> [i \in Ids |-> I0],
        faulty |-> FALSE, slow |-> FALSE, outside |-> FALSE, tk |-> FALSE, hc |-> FALSE, conn |-> FALSE,
-       connEv |-> FALSE, stopSeen |-> FALSE, badval |-> FALSE, unhealthy |-> FALSE,
+       connEv |-> FALSE, stopSeen |-> FALSE, badval |-> FALSE, unhealthy |-> FALSE, hard |-> FALSE,
        vacSince |-> [k \in Keys |-> -1], recSince |-> [k \in Keys |-> 0], W |-> 0,
        now |-> 0]
 
@@ -50,11 +50,16 @@ Own(o, i) == LET r == o.rec[o.I[i].cfg.group] IN o.I[i].claim /\ ClaimBacked(i, 
 \* no preemption configured
 \* context suffix of C02 clauses: unhealthy ticks skip the refresh (known finding, see DESIGN.md)
 Ctx(o) == IF o.unhealthy THEN ":after_unhealthy_ticks_skipped_refresh" ELSE ""
+\* ... narrowed to the instance concerned: it has skipped refreshes on unhealthy ticks since its last successful one
+CtxI(o, i) == IF o.I[i].hskip THEN ":after_unhealthy_ticks_skipped_refresh" ELSE ""
+CtxAny(o, k) == IF \E j \in Ids : o.I[j].present /\ o.I[j].claim /\ o.I[j].cfg.group = k /\ o.I[j].hskip
+                THEN ":after_unhealthy_ticks_skipped_refresh" ELSE ""
 Calm(o)  == ~o.faulty /\ ~o.slow /\ ~o.outside /\ ~o.tk
 \* additionally those of C07
 Quiet(o) == Calm(o) /\ ~o.hc /\ ~o.connEv
 
-Cand(o, i) == LET x == o.I[i] IN x.present /\ x.started /\ ~x.halted /\ ~x.part /\ x.ready /\ x.hung = {}
+\* a candidate of C06: a started, non-stopped follower with an established watch that can reach the store
+Cand(o, i) == LET x == o.I[i] IN x.present /\ x.started /\ ~x.halted /\ ~x.part /\ x.ready /\ x.hung = {} /\ ~x.claim
 
 SetI(o, i, x) == [o EXCEPT !.I[i] = x]
 
@@ -69,19 +74,22 @@ TickInst(o, i, e) ==
       cut == x.claim /\ x.failRun >= 1 /\ x.okStart >= 0 /\ ~x.hskip /\ t > CutOffDeadline(x.okStart, h)
       pre == x.preSince >= 0 /\ t > PreemptDeadline(x.preSince, o.H)
       gr  == x.graceDue >= 0 /\ t > x.graceDue
+      rv  == x.reconnAt >= 0 /\ x.claim /\ x.stopping = 0 /\ t > x.reconnAt + 100000 + 50000
       sl  == x.st.open /\ ~x.st.late /\ t > x.st.at + x.st.bound + 4 * o.L + 1000
       T == OpTimeout(h)
       tmo == {q \in o.pend : q.i = i /\ q.kind = "update" /\ ~q.to /\ q.tok = x.ttok /\ x.claim /\ t - q.at >= T}
-      v == (IF dep THEN {V("C03", "deposed_not_demoted_in_time:" \o x.lostCause \o Ctx(o), i, e)} \cup
+      v == (IF dep THEN {V("C03", "deposed_not_demoted_in_time:" \o x.lostCause \o CtxI(o, i), i, e)} \cup
                         (IF x.lostOutside THEN {V("C13", "tampered_leader_not_demoted", i, e)} ELSE {}) ELSE {})
            \cup (IF cut THEN {V("C03", "cut_off_not_demoted_in_time", i, e)} ELSE {})
            \cup (IF pre THEN {V("C10", "higher_priority_not_leader_within_3H", i, e)} ELSE {})
            \cup (IF gr /\ x.claim THEN {V("C11", "grace_elapsed_not_demoted", i, e)} ELSE {})
            \cup (IF sl THEN {V("C09", "stop_not_returned_in_time", i, e)} ELSE {})
+           \cup (IF rv THEN {V("C11", "no_fresh_read_after_reconnect_notification", i, e)} ELSE {})
       y == [x EXCEPT !.lostAt = IF dep THEN -1 ELSE @,
                      !.okStart = IF cut THEN -1 ELSE @,
                      !.preSince = IF pre THEN -1 ELSE @,
                      !.graceDue = IF gr THEN -1 ELSE @,
+                     !.reconnAt = IF rv \/ ~x.claim THEN -1 ELSE @,
                      !.st.late = @ \/ sl,
                      !.failRun = @ + Cardinality(tmo),
                      !.burst = IF t # x.burstT THEN 0 ELSE @,
@@ -135,7 +143,7 @@ RecChanged(o, k, n, w, cause, e) ==
       o3 == [o2 EXCEPT !.vacSince[k] = IF n.live THEN -1
                                        ELSE IF becameVacant /\ anyCand THEN e.t ELSE @,
                        !.recSince[k] = IF n.live # p.live \/ n.id # p.id THEN e.t ELSE @]
-      v == IF Calm(o) THEN {V("C02", "record_lost_while_claiming:" \o cause \o Ctx(o), i, e) : i \in {j \in Ids : lose(j)}} ELSE {}
+      v == IF Calm(o) THEN {V("C02", "record_lost_while_claiming:" \o cause \o CtxI(o, i), i, e) : i \in {j \in Ids : lose(j)}} ELSE {}
       v7 == IF Quiet(o) THEN {V("C07", "record_of_leader_lapsed_or_changed_owner:" \o cause, i, e) : i \in {j \in Ids : lose(j)}} ELSE {}
   IN R(o3, v \cup v7)
 
@@ -171,20 +179,20 @@ H_stop_call(o, e) ==
              ELSE IF e.timeout > 0 THEN e.timeout ELSE IF e.ctx > 0 THEN e.ctx ELSE 5000000
       st == [open |-> TRUE, variant |-> e.variant, del |-> e.del, wait |-> e.wait,
              bound |-> StopBound(e.variant, tmo, x.cfg.ddur, e.wait), at |-> e.t,
-             owner |-> x.claim /\ ClaimBacked(e.i, r, x.ttok) /\ r.writer = e.i, late |-> FALSE, hadClaim |-> x.claim]
+             owner |-> x.claim /\ ClaimBacked(e.i, r, x.ttok) /\ r.writer = e.i, late |-> FALSE, hadClaim |-> x.claim, checked |-> FALSE]
   IN R([SetI(o, e.i, [x EXCEPT !.stopping = @ + 1, !.st = st, !.halted = TRUE, !.ready = FALSE, !.owes = @ \/ (x.claim /\ x.cfg.cb)]) EXCEPT !.stopSeen = TRUE], {})
 
 H_stop_ret(o, e) ==
   LET x == o.I[e.i]
       r == o.rec[x.cfg.group]
       good == e.ok
-      v1 == IF good /\ x.st.open /\ x.st.variant = "ctx" /\ x.st.del /\ x.st.owner /\ r.live /\ r.writer = e.i
+      v1 == IF good /\ x.st.open /\ x.st.variant = "ctx" /\ x.st.del /\ x.st.owner /\ r.live /\ r.writer = e.i /\ ~x.cut /\ ~x.part
             THEN {V("C09", "record_not_deleted_at_return", e.i, e)} ELSE {}
       v2 == IF x.st.open /\ ~x.st.late /\ e.t > x.st.at + x.st.bound + 4 * o.L + 1000
             THEN {V("C09", "stop_returned_late", e.i, e)} ELSE {}
       v3 == IF good /\ x.claim THEN {V("C09", "reports_leadership_when_stop_returns", e.i, e)} ELSE {}
       infl == {op.op : op \in {q \in o.pend : q.i = e.i}}
-      y == [x EXCEPT !.stopping = IF @ > 0 THEN @ - 1 ELSE 0, !.st = NoStop,
+      y == [x EXCEPT !.stopping = IF @ > 0 THEN @ - 1 ELSE 0, !.st = [x.st EXCEPT !.open = FALSE],
                      !.stopped = IF good THEN TRUE ELSE @, !.inflight = IF good THEN infl ELSE @,
                      !.ready = IF good THEN FALSE ELSE @]
   IN R(SetI(o, e.i, y), v1 \cup v2 \cup v3)
@@ -199,6 +207,7 @@ H_op_issue(o, e) ==
       v4 == IF e.depth > 2 THEN {V("C13", "unbounded_recursion_of_acquisition", e.i, e)} ELSE {}
       \* first refresh attempt issued after the record was lost (C03)
       y == [x EXCEPT !.burst = @ + 1,
+                     !.reconnAt = IF e.kind = "get" /\ e.src = "verify" THEN -1 ELSE @,
                      !.lostHb = IF x.lostAt >= 0 /\ @ = 0 /\ e.kind = "update" THEN e.op ELSE @]
   IN R([SetI(o, e.i, y) EXCEPT !.pend = @ \cup {op}], v1 \cup v2 \cup v3 \cup v4)
 
@@ -213,7 +222,9 @@ H_mutation(o, e) ==
       inStop == x.stopping > 0 \/ \E q \in o.pend : q.op = e.op /\ q.ins
       legit == LegitMutation(m, p, w, x.cfg.tk, x.cfg.prio, inStop)
       foreign == p.live /\ p.writer # w
-      how == IF e.kind = "delete" /\ x.st.open /\ x.st.hadClaim THEN ":by_stopping_instance_whose_record_was_already_lost" ELSE ""
+      \* the known residual race: the owner check of this stop call read the instance's own record, which was replaced before the Delete
+      how == IF e.kind = "delete" /\ x.st.hadClaim /\ x.st.checked THEN ":replaced_between_owner_check_and_delete"
+             ELSE IF e.kind = "delete" /\ x.st.hadClaim THEN ":without_owner_check_showing_own_record" ELSE ""
       v1 == IF ~legit THEN {V("C01", "illegitimate_" \o e.kind \o (IF foreign THEN "_of_foreign_record" ELSE "_of_own_record") \o how, w, e)} ELSE {}
       v1b == IF ~legit /\ e.kind = "update" /\ foreign /\ p.writer # "outside"
              THEN {V("C10", "replacement_without_strictly_higher_priority", w, e)} ELSE {}
@@ -228,12 +239,17 @@ H_mutation(o, e) ==
   IN R(r1.o, r1.v \cup v1 \cup v1b \cup v2 \cup v3 \cup v4)
 
 H_op_apply(o, e) ==
-  LET o1 == IF e.lost THEN [o EXCEPT !.faulty = TRUE, !.I[e.i].cut = TRUE] ELSE o IN
+  LET o0 == IF e.lost THEN [o EXCEPT !.faulty = TRUE, !.hard = TRUE, !.I[e.i].cut = TRUE] ELSE o
+      x == o0.I[e.i]
+      \* a read issued inside a stop call that shows the stopping instance as owner (the owner check of DeleteKey)
+      ownRead == e.kind = "get" /\ e.ok /\ x.st.open /\ e.cls = "payload" /\ e.id = e.i /\ e.tok = x.ttok
+                 /\ \E q \in o0.pend : q.op = e.op /\ q.ins
+      o1 == IF ownRead THEN [o0 EXCEPT !.I[e.i].st.checked = TRUE] ELSE o0 IN
   IF e.ok /\ e.kind \in {"create", "update", "delete"} THEN H_mutation(o1, e)
   ELSE R(o1, {})
 
 H_op_fault(o, e) ==
-  R(Rearm([o EXCEPT !.faulty = TRUE, !.I[e.i].cut = TRUE,
+  R(Rearm([o EXCEPT !.faulty = TRUE, !.hard = TRUE, !.I[e.i].cut = TRUE,
                     !.I[e.i].hung = IF e.ev = "op_hang" THEN @ \cup {e.op} ELSE @], e.t + o.PT), {})
 
 H_op_resp(o, e) ==
@@ -264,7 +280,7 @@ H_op_resp(o, e) ==
       y4 == [y3 EXCEPT !.inflight = @ \ {e.op}, !.hung = @ \ {e.op}]
       lostResp == e.lost \/ (~e.ok /\ e.err \in {"timeout", "connclosed", "noresponders"})
       o1 == SetI(o0, e.i, y4)
-      o2 == IF lostResp THEN Rearm([o1 EXCEPT !.faulty = TRUE, !.I[e.i].cut = TRUE], e.t) ELSE o1
+      o2 == IF lostResp THEN Rearm([o1 EXCEPT !.faulty = TRUE, !.hard = TRUE, !.I[e.i].cut = TRUE], e.t) ELSE o1
       \* an operation that took much longer than the configured latency: the store was not responsive for this
       \* instance until now; the vacancy bound counts from here (C06 "plus operation latencies")
       o3 == IF e.lat > 2 * o.L + 1000 THEN Rearm([o2 EXCEPT !.I[e.i].servedSince = e.t], e.t) ELSE o2
@@ -278,10 +294,10 @@ H_expire(o, e) ==
   ELSE RecChanged(o, e.key, NoRec, "expire", "expired", e)
 
 H_out_put(o, e) ==
-  LET o1 == [o EXCEPT !.outside = TRUE, !.badval = @ \/ e.cls # "payload"] IN
+  LET o1 == [o EXCEPT !.outside = TRUE, !.hard = TRUE, !.badval = @ \/ e.cls # "payload"] IN
   RecChanged(o1, e.key, MkRec(e, "outside"), "outside", "replaced", e)
 H_out_del(o, e) ==
-  RecChanged([o EXCEPT !.outside = TRUE], e.key, Tomb(e, "outside"), "outside", "deleted", e)
+  RecChanged([o EXCEPT !.outside = TRUE, !.hard = TRUE], e.key, Tomb(e, "outside"), "outside", "deleted", e)
 
 \* the claim flag of instance i changes to b (metrics callback inside the critical section, or snapshot)
 ClaimEdge(o, i, b, e) ==
@@ -307,8 +323,8 @@ ClaimEdge(o, i, b, e) ==
       vr == IF rising
             THEN (IF ~x.acqFresh THEN {V("C13", "claim_without_own_successful_acquisition", i, e)} ELSE {})
                  \cup (IF x.stopped THEN {V("C09", "leadership_claimed_after_stop_returned", i, e)} ELSE {})
-                 \cup (IF Calm(o) /\ ~AtMostOneLeader(Claims(o1, k)) THEN {V("C02", "two_leaders" \o Ctx(o), i, e)} ELSE {})
-                 \cup (IF Calm(o) /\ ~ClaimBacked(i, r, y.ttok) THEN {V("C02", "claim_not_backed_by_record" \o Ctx(o), i, e)} ELSE {})
+                 \cup (IF Calm(o) /\ ~AtMostOneLeader(Claims(o1, k)) THEN {V("C02", "two_leaders" \o CtxAny(o, k), i, e)} ELSE {})
+                 \cup (IF Calm(o) /\ ~ClaimBacked(i, r, y.ttok) THEN {V("C02", "claim_not_backed_by_record" \o CtxI(o, i), i, e)} ELSE {})
             ELSE {}
       vf == IF falling /\ ~inStop /\ ~inVod /\ Quiet(o)
             THEN {V("C07", "leader_demoted_in_fault_free_operation:" \o x.note, i, e)} ELSE {}
@@ -319,8 +335,9 @@ ClaimEdge(o, i, b, e) ==
       vpend == \E q \in o.pend : q.i = i /\ q.kind = "get" /\ q.src \in {"verify", "validate"}
       vv == IF falling /\ x.note = "verify_fail" /\ x.verifyOwn /\ x.verify # "failed" /\ ~vpend /\ x.verifyAt >= 0
             THEN {V("C11", "demoted_although_reconnect_verification_showed_ownership", i, e)} ELSE {}
-      \* vacancy filled
-      o2 == IF rising /\ r.live /\ r.id = i THEN [o1 EXCEPT !.vacSince[k] = -1] ELSE o1
+      \* vacancy filled; an instance that stops claiming while the record is vacant is a candidate from now on
+      o2 == IF rising /\ r.live /\ r.id = i THEN [o1 EXCEPT !.vacSince[k] = -1]
+            ELSE IF falling THEN Rearm(o1, e.t) ELSE o1
   IN R(o2, vr \cup vf \cup vg \cup vh \cup vv)
 
 H_m_isleader(o, e) == ClaimEdge(o, e.i, e.v = 1, e)
@@ -362,7 +379,7 @@ H_health(o, e) ==
       y == [x EXCEPT !.consecU = cu, !.hdue = ~e.res /\ cu >= N, !.hskip = @ \/ ~e.res \/ e.hang]
       \* a checker that ignores its context and hangs stalls the heartbeat loop: the instance is cut off by user code
       y2 == IF e.hang THEN [y EXCEPT !.cut = TRUE] ELSE y
-  IN R([SetI(o, e.i, y2) EXCEPT !.unhealthy = @ \/ ~e.res, !.faulty = @ \/ e.hang], v1)
+  IN R([SetI(o, e.i, y2) EXCEPT !.unhealthy = @ \/ ~e.res, !.faulty = @ \/ e.hang, !.hard = @ \/ e.hang], v1)
 
 H_note(o, e) ==
   LET x == o.I[e.i]
@@ -384,12 +401,13 @@ H_disc(o, e) ==
       EXCEPT !.connEv = TRUE], {})
 H_reconn(o, e) ==
   LET x == o.I[e.i] IN
-  R([SetI(o, e.i, [x EXCEPT !.graceDue = -1, !.verify = "none", !.verifyOwn = FALSE, !.verifyAt = -1])
+  R([SetI(o, e.i, [x EXCEPT !.graceDue = -1, !.verify = "none", !.verifyOwn = FALSE, !.verifyAt = -1,
+                            !.reconnAt = IF x.claim /\ x.stopping = 0 THEN e.t ELSE -1])
       EXCEPT !.connEv = TRUE], {})
 H_closed(o, e) == R([o EXCEPT !.connEv = TRUE], {})
 
 H_partition(o, e) ==
-  R([SetI(o, e.i, [o.I[e.i] EXCEPT !.part = TRUE, !.cut = TRUE]) EXCEPT !.faulty = TRUE], {})
+  R([SetI(o, e.i, [o.I[e.i] EXCEPT !.part = TRUE, !.cut = TRUE]) EXCEPT !.faulty = TRUE, !.hard = TRUE], {})
 H_heal(o, e) ==
   R(Rearm(SetI(o, e.i, [o.I[e.i] EXCEPT !.part = FALSE]), e.t + o.PT), {})
 
@@ -425,13 +443,15 @@ H_snap(o, e) ==
       v18c == IF y.stopped /\ (e.state # "STOPPED" \/ e.leader)
               THEN {V("C18", "not_stopped_after_stop", i, e), V("C09", "state_not_stopped_after_stop_returned", i, e)} ELSE {}
       v09 == IF y.stopped /\ e.leader THEN {V("C09", "reports_leadership_after_stop_returned", i, e)} ELSE {}
-      follower == ~y.claim /\ Cand(o1, i) /\ ~o1.faulty /\ e.state = "FOLLOWER"
+      \* convergence is demanded in fault-free runs, and also when only watch notifications were lost or late provided the
+      \* instance has known a leader before (the periodic check then corrects it)
+      follower == ~y.claim /\ Cand(o1, i) /\ ~o1.hard /\ (~o1.faulty \/ y.hadLid) /\ e.state = "FOLLOWER"
       bound == 1000000 + 6 * o1.L + o1.W
       settled == r.live /\ r.cls = "payload" /\ e.t - o1.recSince[k] > bound /\ e.t - y.readyAt > bound /\ e.t - y.servedSince > bound
                  /\ (\A op \in o1.pend : op.i = i => e.t - op.at <= 2 * o1.L + 1000)
       v18d == IF follower /\ settled /\ e.slid # r.id THEN {V("C18", "follower_leader_id_not_converged", i, e)} ELSE {}
-      v02 == IF Calm(o1) /\ y.claim /\ ~ClaimBacked(i, r, y.ttok) THEN {V("C02", "claim_not_backed_by_record" \o Ctx(o), i, e)} ELSE {}
-      v02b == IF Calm(o1) /\ ~AtMostOneLeader(Claims(o1, k)) THEN {V("C02", "two_leaders" \o Ctx(o), i, e)} ELSE {}
+      v02 == IF Calm(o1) /\ y.claim /\ ~ClaimBacked(i, r, y.ttok) THEN {V("C02", "claim_not_backed_by_record" \o CtxI(o, i), i, e)} ELSE {}
+      v02b == IF Calm(o1) /\ ~AtMostOneLeader(Claims(o1, k)) THEN {V("C02", "two_leaders" \o CtxAny(o, k), i, e)} ELSE {}
       v07 == IF Quiet(o1) /\ y.claim /\ e.tok # y.ttok THEN {V("C07", "term_token_changed", i, e)} ELSE {}
       v05 == IF y.claim /\ quiet /\ (e.tok # y.ttok \/ e.stok # y.ttok) THEN {V("C05", "token_accessors_differ_from_record_token", i, e)} ELSE {}
       v08 == IF quiet /\ y.cfg.cb /\ ~Balanced(y.claim, e.np, e.nd)
@@ -441,12 +461,14 @@ H_snap(o, e) ==
       v19 == IF quiet /\ ~y.claim /\ y.ctxOpen # {} THEN {V("C19", "promotion_context_outlives_term", i, e)} ELSE {}
       \* first refresh attempt after the loss completed: must be demoted now (C03)
       v03 == IF quiet /\ ~y.cut /\ y.lostAt >= 0 /\ y.lostHb > 0 /\ y.lostHb \notin {q.op : q \in o1.pend} /\ (y.claim \/ (y.cfg.cb /\ e.nd <= y.ndRise))
-             THEN {V("C03", "not_demoted_at_completion_of_next_heartbeat:" \o y.lostCause \o Ctx(o1), i, e)} ELSE {}
+             THEN {V("C03", "not_demoted_at_completion_of_next_heartbeat:" \o y.lostCause \o Ctx(o1), i, e)} \cup
+                  (IF y.lostOutside THEN {V("C13", "tampered_leader_not_demoted_at_completion_of_next_heartbeat:" \o y.lostCause, i, e)} ELSE {}) ELSE {}
       v03b == IF quiet /\ y.claim /\ y.failRun >= ToleratedFailures
               THEN {V("C03", "not_demoted_after_third_failed_refresh", i, e)} ELSE {}
       vver == IF quiet /\ y.verify = "failed" /\ y.claim
               THEN {V("C11", "kept_leadership_although_verification_read_did_not_show_ownership", i, e)} ELSE {}
-      z == [y EXCEPT !.hdue = IF quiet THEN FALSE ELSE @,
+      z == [y EXCEPT !.hadLid = @ \/ e.slid # "",
+                     !.hdue = IF quiet THEN FALSE ELSE @,
                      !.lostAt = IF v03 # {} THEN -1 ELSE @,
                      !.failRun = IF v03b # {} THEN 0 ELSE @,
                      !.verify = IF quiet /\ @ = "failed" THEN "none" ELSE @]
@@ -496,7 +518,7 @@ Handle(o, e) ==
   ELSE IF ev = "reconn" THEN H_reconn(o, e)
   ELSE IF ev = "closed" THEN H_closed(o, e)
   ELSE IF ev = "script_miss"          \* a model behaviour being replayed could not be followed: the rest of the run is not paced by the script
-       THEN R([o EXCEPT !.faulty = TRUE, !.I = [i \in Ids |-> [o.I[i] EXCEPT !.cut = TRUE]]], {})
+       THEN R([o EXCEPT !.faulty = TRUE, !.hard = TRUE, !.I = [i \in Ids |-> [o.I[i] EXCEPT !.cut = TRUE]]], {})
   ELSE IF ev = "partition" THEN H_partition(o, e)
   ELSE IF ev = "heal" THEN H_heal(o, e)
   ELSE R(o, {})
